@@ -104,6 +104,7 @@ func cmdRun(args []string) int {
 	noEvidence := fs.Bool("no-evidence", false, "do not write the evidence file")
 	overrides := paramFlags{}
 	fs.Var(overrides, "p", "override a harness parameter k=v (self-validation runs)")
+	scOverride := fs.String("scenarios", "", "comma-separated scenario numbers replacing the registered lists (self-validation runs)")
 	fs.Parse(args)
 	vd := verifDir()
 	seed := 0
@@ -187,6 +188,15 @@ func cmdRun(args []string) int {
 			list := h.QuickScenarios
 			if *tier == "thorough" {
 				list = h.ThoroughScenarios
+			}
+			if *scOverride != "" {
+				list = nil
+				for _, x := range strings.Split(*scOverride, ",") {
+					var n int
+					if _, err := fmt.Sscan(x, &n); err == nil {
+						list = append(list, n)
+					}
+				}
 			}
 			res = RunSchedList(l, f, params, list, *workers, timeoutMs, *verbose)
 		} else {
